@@ -230,7 +230,6 @@ def run(ctx, anchors=None):
     writer = writer[0]
     judge = fb.fn("CheckMinimalPush", file="script/script.cpp")
     reader = fb.fn("GetScriptOp", file="script/script.cpp")
-    _cm.require_names(reader, ["opcode", "pc", "nSize"], "R07.2")
     if len(judge.params) != 2 or len(writer.params) != 1:
         raise AnalysisBroken("R07.2: CheckMinimalPush(data, opcode) / operator<<(vector) signatures changed")
 
@@ -298,31 +297,47 @@ def run(ctx, anchors=None):
     single_rejected = sorted({(dlo, dhi) for (lo, hi, dlo, dhi, ret) in jall if (lo, hi) == (1, 1) and ret == symx.C(0)})
     single_other = sorted({symx.show(ret) for (lo, hi, dlo, dhi, ret) in jall if (lo, hi) == (1, 1) and ret != symx.C(0)})
     empty_ret = sorted({symx.show(ret) for (lo, hi, dlo, dhi, ret) in jall if (lo, hi) == (0, 0)})
-    # reader ladder
-    rcl = []
-    for n in reader.nodes():
-        if n["k"] == "if":
-            c = n["cond"]
-            if c.get("k") == "bin" and c["op"] in ("<", "==") and astq.estr(c["lhs"]) == "opcode":
-                K = astq.const_value(c["rhs"])
-                nm = c["rhs"]["n"] if c["rhs"].get("k") == "ref" else None
-                w = None
-                for x in walk(n["then"]):
-                    if x["k"] == "call" and x.get("n") == "ReadLE16":
-                        w = 2
-                    if x["k"] == "call" and x.get("n") == "ReadLE32":
-                        w = 4
-                    adv = None
-                    if x["k"] == "cassign" and x["op"] == "+=" and astq.estr(x["lhs"]) == "pc":
-                        adv = astq.const_value(x["rhs"])
-                    if x["k"] == "opcall" and x.get("op") == "+=" and len(x["args"]) == 2 and astq.estr(x["args"][0]) == "pc":
-                        adv = astq.const_value(x["args"][1])
-                    if adv is not None and w is not None:
-                        ctx.inst(adv == w, "R07.2", "reader-advance=" + str(nm), reader.loc(x), "the reader advances by the width it read (%d)" % w,
-                                 "GetScriptOp reads a %d-byte length for %s but advances by %s" % (w, nm, adv))
-                if w is None and c["op"] == "==":
-                    w = 1 if any((x["k"] == "un" and x["op"] == "++") or (x["k"] == "opcall" and x.get("op") == "++") for x in walk(n["then"])) else None
-                rcl.append((c["op"], nm, K, w))
+    # reader ladder: per class of the opcode byte, how far the cursor advances and where the payload length comes from
+    if len(reader.params) != 4:
+        raise AnalysisBroken("R07.2: GetScriptOp(pc, end, opcodeRet, pvchRet) signature changed")
+    PC = ("a", "pc")
+    OPB = ("f", PC, "*")
+    rcl = {}
+    for o in explore(reader, params={reader.params[0]["n"]: PC, reader.params[1]["n"]: ("a", "end"), reader.params[2]["n"]: ("a", "opcodeRet"), reader.params[3]["n"]: symx.NULL}):
+        if o.status != "ret" or o.ret != symx.C(1):
+            continue
+        lo, hi = ladders.interval(o.conds, OPB, top=255)
+        if lo > hi:
+            continue
+        fin = X.var(o, reader.params[0]["n"])
+        c0, parts = symx.lin_parts(fin)
+        rest = {k_: v_ for k_, v_ in parts.items() if k_ != PC}
+        src = None
+        if parts.get(PC) != 1 or any(v_ != 1 for v_ in rest.values()) or len(rest) > 1:
+            src = "cursor = %s" % symx.show(fin)
+        elif rest:
+            t = list(rest)[0]
+            nxt = symx.lin_add(PC, symx.C(1))
+            if t == OPB:
+                src = "opcode"
+            elif t == ("f", nxt, "*"):
+                src = "byte@pc+1"
+            elif isinstance(t, tuple) and t[0] == "ap" and t[1] in ("ReadLE16", "ReadLE32") and symx.contains(t, nxt):
+                src = t[1] + "@pc+1"
+            else:
+                src = symx.show(t)
+        rcl.setdefault((lo, hi), set()).add((c0, src, X.var(o, reader.params[2]["n"]) == OPB))
+    want_r = {(0, E["OP_PUSHDATA1"] - 1): (1, "opcode", True), (E["OP_PUSHDATA1"],) * 2: (2, "byte@pc+1", True), (E["OP_PUSHDATA2"],) * 2: (3, "ReadLE16@pc+1", True),
+              (E["OP_PUSHDATA4"],) * 2: (5, "ReadLE32@pc+1", True), (E["OP_PUSHDATA4"] + 1, 255): (1, None, True)}
+    got_r = {k_: (list(v_)[0] if len(v_) == 1 else tuple(sorted(v_, key=repr))) for k_, v_ in rcl.items()}
+    for (k_, nm) in (((E["OP_PUSHDATA1"],) * 2, "OP_PUSHDATA1"), ((E["OP_PUSHDATA2"],) * 2, "OP_PUSHDATA2"), ((E["OP_PUSHDATA4"],) * 2, "OP_PUSHDATA4")):
+        g_ = got_r.get(k_)
+        adv = g_[0] if isinstance(g_, tuple) and len(g_) == 3 and isinstance(g_[0], int) else None
+        ctx.inst(adv == want_r[k_][0], "R07.2", "reader-advance=" + nm, reader.loc(), "the reader advances past the opcode and the %d-byte length it read" % (want_r[k_][0] - 1),
+                 "GetScriptOp reads a %d-byte length for %s but advances by %s" % (want_r[k_][0] - 1, nm, (adv - 1) if adv is not None else g_))
+    # same classes and length sources (the advance is judged above)
+    def strip(d):
+        return {k_: ((v_[1], v_[2]) if isinstance(v_, tuple) and len(v_) == 3 and isinstance(v_[0], int) else v_) for k_, v_ in d.items()}
     ctx.site(len(wclasses) + len(jcl) + len(rcl))
     want_w = [(75, (None, None)), (255, ("OP_PUSHDATA1", 1)), (65535, ("OP_PUSHDATA2", 2)), (None, ("OP_PUSHDATA4", 4))]
     ctx.inst(wclasses == want_w, "R07.2", "writer-ladder", writer.loc(), "writer classes: %s" % wclasses,
@@ -330,9 +345,8 @@ def run(ctx, anchors=None):
     want_j = [(75, "<size>"), (255, "OP_PUSHDATA1"), (65535, "OP_PUSHDATA2")]
     ctx.inst(jcl == want_j, "R07.2", "judge-ladder", judge.loc(), "judge classes: %s" % jcl,
              "CheckMinimalPush uses the classes %s; the writer uses %s" % (jcl, want_j))
-    want_r = [("<", "OP_PUSHDATA1", 0x4c, None), ("==", "OP_PUSHDATA1", 0x4c, 1), ("==", "OP_PUSHDATA2", 0x4d, 2), ("==", "OP_PUSHDATA4", 0x4e, 4)]
-    ctx.inst(rcl == want_r, "R07.2", "reader-ladder", reader.loc(), "reader classes: %s" % rcl,
-             "GetScriptOp decodes the classes %s; the writer emits %s" % (rcl, want_r))
+    ctx.inst(strip(got_r) == strip(want_r), "R07.2", "reader-ladder", reader.loc(), "reader classes (opcode range -> advance, length source): %s" % sorted(got_r.items()),
+             "GetScriptOp decodes the classes %s; the writer emits %s" % (sorted(strip(got_r).items()), sorted(strip(want_r).items())))
 
     # ---- R07.3
     pi = fb.fn("CScript::push_int64")
